@@ -473,6 +473,13 @@ let step o i s =
      | RdUnbound -> Err s
      | RdStuck w -> Stuck w)
 
+(** val run : orc -> instr list -> state -> result **)
+
+let rec run o c s =
+  match c with
+  | [] -> Norm s
+  | i :: c' -> bind (step o i s) (run o c')
+
 (** val loop_on :
     orc -> nat -> nat -> nat -> (state -> result) -> nat -> state -> result **)
 
@@ -795,3 +802,103 @@ let orc_of k decisions =
 let events_of = function
 | Done (b, s) -> Some (b, (rev s.tr))
 | _ -> None
+
+(** val exit_call :
+    orc -> bool -> bool -> nat -> nat list -> state -> result **)
+
+let exit_call o late test te args s =
+  match rds s (map (fun x -> RTmp x) (te :: args)) with
+  | RsOk _ ->
+    let k = s.calls in
+    bind (decref_all (te :: args) (tick s)) (fun s2 ->
+      if o.fail k
+      then Err s2
+      else let o0 = s2.nxt in
+           let s3 = got o0 (fresh s2) in
+           if test
+           then let k2 = s3.calls in
+                let s4 = tick s3 in
+                if late
+                then if o.fail k2
+                     then Err s4
+                     else (match give o0 s4 with
+                           | Some s5 -> Norm (set_flag (o.truth k2) s5)
+                           | None -> Stuck TooManyDecref)
+                else (match give o0 s4 with
+                      | Some s5 ->
+                        if o.fail k2
+                        then Err s5
+                        else Norm (set_flag (o.truth k2) s5)
+                      | None -> Stuck TooManyDecref)
+           else (match give o0 s3 with
+                 | Some s5 -> Norm s5
+                 | None -> Stuck TooManyDecref))
+  | RsUnbound -> Err s
+  | RsStuck w -> Stuck w
+
+(** val exit_order : bool -> bool -> nat list **)
+
+let exit_order late test =
+  app (O :: ((S O) :: ((S (S O)) :: ((S (S (S O))) :: ((S (S (S (S
+    O)))) :: [])))))
+    (if test
+     then if late
+          then (S (S (S (S (S O))))) :: ((S (S (S (S (S (S (S O))))))) :: ((S
+                 (S (S (S (S (S O)))))) :: []))
+          else (S (S (S (S (S O))))) :: ((S (S (S (S (S (S O)))))) :: ((S (S
+                 (S (S (S (S (S O))))))) :: []))
+     else (S (S (S (S (S (S O)))))) :: [])
+
+(** val exc_fetch : nat -> nat -> nat -> state -> result **)
+
+let exc_fetch e0 e1 e2 s =
+  bind (new_ref e0 s.nxt (fresh s)) (fun s1 ->
+    bind (new_ref e1 s1.nxt (fresh s1)) (fun s2 ->
+      new_ref e2 s2.nxt (fresh s2)))
+
+(** val reraise3 : orc -> nat -> nat -> nat -> state -> result **)
+
+let reraise3 o e0 e1 e2 s =
+  bind
+    (run o ((IGiveB (RTmp e0)) :: ((IGiveB (RTmp e1)) :: ((IGiveB (RTmp
+      e2)) :: []))) s) (fun s' -> Err s')
+
+(** val try_cleanup : nat list -> state -> result **)
+
+let try_cleanup keep s =
+  sweep (fun s0 -> s0.temps) set_temps
+    (filter (fun t -> negb (existsb (Nat.eqb t) keep))
+      (seq O (kbound s.temps))) s
+
+(** val with_stat :
+    orc -> bool -> rand -> nat -> nat -> nat -> nat -> nat -> nat -> nat
+    option -> nat list -> (state -> result) -> state -> result **)
+
+let with_stat o late rm te tv e0 e1 e2 ta x keep body s =
+  bind (step o (IAlloc te) s) (fun s1 ->
+    match run o
+            (app ((IOp (tv, (rm :: []), [])) :: [])
+              (map (fun x0 -> IDecref x0) (tmp_of rm))) s1 with
+    | Norm s2 ->
+      let pre =
+        match x with
+        | Some v -> step o (ISetLoc (v, (RTmp tv))) s2
+        | None -> decref_clear tv s2
+      in
+      let fin = fun k s3 -> bind (exit_call o late false te [] s3) k in
+      (match bind pre body with
+       | Norm s3 -> fin (fun x0 -> Norm x0) s3
+       | Err s3 ->
+         bind (try_cleanup (te :: keep) s3) (fun s4 ->
+           bind (exc_fetch e0 e1 e2 s4) (fun s5 ->
+             bind (step o (IAlloc ta) s5) (fun s6 ->
+               bind (exit_call o late true te (ta :: []) s6) (fun s7 ->
+                 if s7.flag
+                 then decref_all (e0 :: (e1 :: (e2 :: []))) s7
+                 else reraise3 o e0 e1 e2 s7))))
+       | Ret s3 -> fin (fun x0 -> Ret x0) s3
+       | Brk s3 -> fin (fun x0 -> Brk x0) s3
+       | Cnt s3 -> fin (fun x0 -> Cnt x0) s3
+       | x0 -> x0)
+    | Err s2 -> bind (decref_clear te s2) (fun x0 -> Err x0)
+    | x0 -> x0)
